@@ -814,9 +814,15 @@ theorem Heap.get_record_none (t : Tok) : ∀ (outs : List Item) (h : Heap), h.ge
       exact Heap.get_record_none t ys h h0 (fun z hz => hy z (List.mem_cons_of_mem _ hz))
     | some c =>
       simp only
-      apply Heap.get_record_none t ys _ _ (fun z hz => hy z (List.mem_cons_of_mem _ hz))
-      rw [Heap.get_set_ne _ _ _ _ (hy y (by simp) c hc)]
-      exact h0
+      cases hct : c.tok with
+      | src n =>
+        simp only
+        apply Heap.get_record_none t ys _ _ (fun z hz => hy z (List.mem_cons_of_mem _ hz))
+        rw [Heap.get_set_ne _ _ _ _ (by rw [← hct]; exact hy y (by simp) c hc)]
+        exact h0
+      | made p k =>
+        simp only
+        exact Heap.get_record_none t ys h h0 (fun z hz => hy z (List.mem_cons_of_mem _ hz))
 
 theorem Item.refresh_of_none (h : Heap) (v : Item) (hv : ∀ c, v.ctx = some c → h.get c.tok = none) :
     v.refresh h = v := by
